@@ -8,7 +8,7 @@ From Coq Require Import List.
 Import ListNotations.
 From VF Require Import Base Iter Enc Lru LruStep Slru CacheStep Tiny WTiny TinyStep
   BaseFacts LruFacts Counts SlruFacts TinyFacts WTinyFacts Run C01Proofs
-  Heap HeapIterDef HeapOps HeapRun HeapMulti HeapClone HeapSlruDef HeapSlru.
+  Heap HeapIterDef HeapOps HeapRun HeapMulti HeapClone HeapSlruDef HeapSlru HeapWTinyDef HeapWTiny.
 
 (** RawLRU: re-inserting the entries from least to most recent into an empty list of the same
     capacity rebuilds exactly the same list — for every reachable state *)
@@ -54,6 +54,14 @@ Theorem C16_heap_slru_clone_independent : forall Fx h s ls os,
   exists la' lb', RS ((hprob s1', la') :: (hprot s1', lb') :: Fx) h2 s ls.
 Proof. exact slru_clone_independent. Qed.
 
+(** WTinyLFUCache: the same, for its three lists *)
+Theorem C16_heap_wtiny_clone_independent : forall Fx h s ls os,
+  RWx Fx h s ls -> wt_inv ls ->
+  exists h1 s1, hw_clone h s = HOk (h1, s1) /\
+  exists h2 s1' ls1 outs, hw_run h1 s1 os = HOk (h2, s1', outs) /\ lw_run ls os = Ok (ls1, outs) /\
+  exists la' lb' lw', RWx ((hprob (hw_slru s1'), la') :: (hprot (hw_slru s1'), lb') :: (hw_lru s1', lw') :: Fx) h2 s ls.
+Proof. exact wtiny_clone_independent. Qed.
+
 Print Assumptions C16_lru_clone_identical.
 Print Assumptions C16_lru_same_future.
 Print Assumptions C16_slru_clone_identical.
@@ -61,3 +69,4 @@ Print Assumptions C16_wtiny_clone_identical.
 Print Assumptions C16_tiny_clone_identical.
 Print Assumptions C16_heap_clone_independent.
 Print Assumptions C16_heap_slru_clone_independent.
+Print Assumptions C16_heap_wtiny_clone_independent.
